@@ -17,6 +17,7 @@
 package messageview
 
 import (
+	"bufio"
 	"bytes"
 	"compress/flate"
 	"compress/gzip"
@@ -257,6 +258,14 @@ func (mv *MessageView) BodyReader(opts ...Option) (io.ReadCloser, error) {
 
 	if mv.chunked {
 		r = httputil.NewChunkedReader(r)
+	}
+	if mv.compress == "gzip" || mv.compress == "deflate" {
+		// An empty body (answer to HEAD, 304) decodes to an empty body.
+		br := bufio.NewReader(r)
+		if _, err := br.Peek(1); err == io.EOF {
+			return ioutil.NopCloser(br), nil
+		}
+		r = br
 	}
 	switch mv.compress {
 	case "gzip":
